@@ -222,7 +222,8 @@ PROPS = {
     'C17': {
         'lean_targets': ['Shisui.Props.C17'],
         'min_obligations': 6,
-        'runs': [{'name': 'crash', 'harness': ['crash'], 'driver': ['crash'], 'timeout': 1800}],
+        'runs': [{'name': 'crash', 'harness': ['crash'], 'driver': ['crash'], 'timeout': 1800},
+                 {'name': 'reopen-corpus', 'harness': ['store', 'corpus'], 'driver': ['store', 'C17']}],
         'rule': 'put histories of 12..17 puts (items 60..120 KB or tiny, one in six an overwrite; capacity 1 MB so that a prune and the >95% state occur) on '
                 'the real pebble store over errorfs(StrictMem): for every cut point k (every k-th mutating file-system call: create, write, sync, rename, '
                 'remove, link, mkdir; up to 45 sampled per history in the quick tier, 400 in thorough) the k-th call and all later ones block forever; the '
